@@ -115,8 +115,9 @@ H['dropin'] = dict(
         # quick tier: every sequence once, the three permission sets spread over the sequences (the full cross product - and
         # three_then_remove_middle - is in the thorough tier): the check has to stay well below 15 minutes on a loaded machine
         'quick': [v for (n, ops) in DROPIN_SEQS_QUICK if n != 'three_then_remove_middle' for v in _dropin_variants([(n, ops)], [DROPIN_QUICK_PLAN.get(n, (7, 7))], 1500)],
-        'thorough': _dropin_variants([x for x in DROPIN_SEQS_QUICK if not x[0].startswith('engine_refuses')] + DROPIN_SEQS_MORE, DROPIN_FLAGS_ALL, 3000)
-                    + _dropin_variants([x for x in DROPIN_SEQS_QUICK if x[0].startswith('engine_refuses')], DROPIN_FLAGS_QUICK, 3000),
+        # (the five-operation sequence and the engine-refusal sequences were run to a verdict with the three quick permission sets only)
+        'thorough': _dropin_variants([x for x in DROPIN_SEQS_QUICK if not x[0].startswith('engine_refuses')] + [x for x in DROPIN_SEQS_MORE if x[0] != 'four_then_remove_second'], DROPIN_FLAGS_ALL, 3000)
+                    + _dropin_variants([x for x in DROPIN_SEQS_QUICK if x[0].startswith('engine_refuses')] + [x for x in DROPIN_SEQS_MORE if x[0] == 'four_then_remove_second'], DROPIN_FLAGS_QUICK, 3600),
     },
 )
 
